@@ -20,7 +20,8 @@ CONSTANT Table     \* "password" | "stateful" | "jwt" | "hash"
 
 ---------------------------------------------------------------------------
 (* C08: password login *)
-Kinds == {"plain", "pbkdf2", "bcrypt", "wildcard", "none", "nokey", "badhex", "unknown"}
+\* "pbkdf2upper": the same record with its hex strings in upper case; "emptykey": a pbkdf2 record whose key is the empty string
+Kinds == {"plain", "pbkdf2", "pbkdf2upper", "bcrypt", "wildcard", "none", "nokey", "badhex", "emptykey", "unknown"}
 Roles == {"op", "present", "message", "observe", "raw"}      \* "raw": an explicit array ["present","op"]
 
 PasswordCases ==
@@ -29,7 +30,7 @@ PasswordCases ==
 
 \* does a record of kind k, whose password is `mine`, match credential c ?  "err" = malformed record
 Match(k, mine, c) ==
-  CASE k \in {"plain", "pbkdf2", "bcrypt"} -> IF c = mine THEN "yes" ELSE "no"
+  CASE k \in {"plain", "pbkdf2", "pbkdf2upper", "bcrypt"} -> IF c = mine THEN "yes" ELSE "no"
     [] k = "wildcard" -> "yes"
     [] k = "none" -> "no"
     [] OTHER -> "err"
@@ -101,8 +102,9 @@ KAlg(k) == CASE k \in {"K1", "K2", "K4"} -> "HS256" [] k = "K3" -> "ES256" [] k 
 KKid(k) == CASE k = "K1" -> "k1" [] k = "K3" -> "k3" [] k = "K5" -> "k5" [] OTHER -> ""
 \* who signed: a group key, K4 (an HS256 secret the group does not have), "pub3" (HS256 keyed with
 \* K3's PUBLIC key bytes), or nobody (alg "none")
-Signers == {"K1", "K2", "K3", "K4", "K5", "pub3", "nobody"}
-SAlg(s) == IF s = "pub3" THEN "HS256" ELSE IF s = "nobody" THEN "none" ELSE KAlg(s)
+\* "K1as384" / "K1as512": HS384 / HS512 keyed with K1's secret (a key the group declares for HS256 only)
+Signers == {"K1", "K2", "K3", "K4", "K5", "pub3", "nobody", "K1as384", "K1as512"}
+SAlg(s) == CASE s = "pub3" -> "HS256" [] s = "nobody" -> "none" [] s = "K1as384" -> "HS384" [] s = "K1as512" -> "HS512" [] OTHER -> KAlg(s)
 
 JwtCases ==
   [keys : KeySets, signer : Signers, kid : {"", "k1", "k3", "bogus"}, exp : {"farfuture"}, aud : {"exact"}, host : {"nocanon"}]
